@@ -59,7 +59,7 @@ CallsSmall == {Mk("execve", "p_norm", "a_two", "e_one"), Mk("execv", "p_long", "
                Mk("execve", "p_empty", "a_emptystr", "e_empty")}
 FilesC06 == { [D EXCEPT !.fmt = "cmdfile", !.out = "file"], [D EXCEPT !.fmt = "cmd", !.out = "file"],
               [D EXCEPT !.fmt = "cmdfile", !.out = "file", !.dsmax = "min"], [D EXCEPT !.state = "absent"],
-              [D EXCEPT !.fmt = "cmd", !.out = "file", !.dsmax = "big", !.logmax = "big"] }     \* limits raised (64 KiB / 128 KiB): thousands of short arguments fit
+              [D EXCEPT !.fmt = "cmdfile", !.out = "file", !.dsmax = "big", !.logmax = "big"] }     \* limits raised (64 KiB / 128 KiB): thousands of short arguments fit
 CallsC06 == {Mk(k, p, a, IF k = "execve" THEN "e_one" ELSE "e_none") : k \in {"execv", "execve"}, p \in {"p_norm", "p_long", "p_vlong"},
              a \in {"a_huge", "a_one", "a_null", "a_empty", "a_emptystr", "a_two", "a_many", "a_2g"}}
 FilesC11 == {
